@@ -16,6 +16,7 @@ import time
 
 from vlib.hostlist import HL, hx, unhx, names_field, Cli, VERIF_CORPUS
 from vlib.common import HARNESS
+from vlib.seqrun import run_batch
 from vlib import xcl as xclsys
 
 LEVEL = "proof"
@@ -740,6 +741,50 @@ def probe_2br(cli):
     return None
 
 
+# ------------------------------------------------------------------ library level
+NAME_OPS = ("push", "find", "delete", "delete_host")
+
+
+def enc_op(op):
+    w = op.split(" ", 1)
+    return w[0] + " " + hxs(w[1]) if w[0] in NAME_OPS and len(w) > 1 else op
+
+
+def lib_level(ctx, hl, histories, dist):
+    """hostlist_find / hostlist_delete of the REAL hostlist.c (in-process harness) on lists whose records are ranges,
+    against the editable-list model (`hl edit`) and the plain-list specification (`hl plspec`)"""
+    eseqs = [[enc_op(o) for o in h] for h in histories]
+    impl = run_batch([hl.exe], eseqs, env=hl.env, timeout=600)
+    text = "".join(l + "\n" for s in eseqs for l in s)
+    ml = ctx.model("hl", text, args=["edit"])
+    sl = [a.split(" # ")[0] for a in ctx.model("hl", text, args=["plspec"])]
+    pos = 0
+    for h, (ans, crash) in zip(histories, impl):
+        m, sp = ml[pos:pos + len(h)], sl[pos:pos + len(h)]
+        pos += len(h)
+        dist["lib-histories"] = dist.get("lib-histories", 0) + 1
+        case = {"ops": h}
+        if crash is not None:
+            dist["lib-crash"] = dist.get("lib-crash", 0) + 1
+            ctx.offender("lib:crash", "hostlist.c dies on %s: %s" % (h, crash[-300:]), case)
+            continue
+        if ans != m and not any(a.startswith("ub:") or a == "DEAD" for a in m):
+            k = next(i for i in range(len(h)) if i >= len(ans) or i >= len(m) or ans[i] != m[i])
+            ctx.disagreement("hl edit model vs hostlist.c", "history %s: op %d `%s` impl `%s` model `%s`" % (
+                h, k, h[k], ans[k] if k < len(ans) else None, m[k] if k < len(m) else None), case)
+        bad = [i for i in range(len(h)) if h[i].split()[0] in ("find", "delete", "hosts", "count") and
+               (i >= len(ans) or ans[i] != sp[i])]
+        if bad:
+            k = bad[0]
+            op = h[k].split()[0]
+            sig = "lib:" + {"find": "find-wrong", "delete": "delete-count", "hosts": "wrong-hosts-left",
+                            "count": "count"}[op]
+            ctx.offender(sig, "hostlist.c, history %s: op %d `%s` answers `%s`, the plain-list specification `%s`" % (
+                h, k, h[k], ans[k] if k < len(ans) else None, sp[k]), case)
+        else:
+            dist["lib-agrees"] = dist.get("lib-agrees", 0) + 1
+
+
 def modes_for(case, prof, spec_answer):
     """which observations a case gets: the listing always; the hosts really contacted (one fork per host) for every
     corpus / random / replayed case, and for every fifth case of the systematic classes"""
@@ -795,7 +840,9 @@ def run(ctx):
         if br2 is None:
             ctx.broken.append(("C-BROKEN", "F02-2BR probe", "the two-bracket sub-tests on the real pdsh disagree"))
         PROBED["2br"] = bool(br2)
-        if ctx.replay:
+        if ctx.replay and "ops" in json.load(open(ctx.replay))["case"]:
+            cases, profs = [], []       # a library-level history: below
+        elif ctx.replay:
             cases = [rebase(Case.from_json(json.load(open(ctx.replay))["case"]), cli.cwd)]
             profs = ["replay"]
         else:
@@ -849,6 +896,17 @@ def run(ctx):
                 cov["samples"].append({"argv": [x for o in case.opts for x in o]})
     hl = HL(ctx)
     dist["probed-variant"] = hl.probed()
+    if hl.build():
+        if ctx.replay:
+            rc = json.load(open(ctx.replay))["case"]
+            hist = [rc["ops"]] if "ops" in rc else []
+        else:
+            hist = xclsys.lib_histories(thorough=not ctx.quick())
+        try:
+            lib_level(ctx, hl, hist, dist)
+            cov["evaluations"] += len(hist)
+        except Exception as e:     # noqa
+            ctx.broken.append(("C-BROKEN", "check machinery (library level)", repr(e)))
     cov["distribution"] = dist
     cov["traces_validated_against_impl"] = cov["evaluations"]
     for b in ctx.broken[:4]:
